@@ -114,14 +114,30 @@ Section LTS.
     i_ran : list str                 (* labels whose command this invocation ran *)
   }.
 
-  Record state := mkSt { st_store : store; st_n : nat; st_inv : nat -> inv }.
+  (* the directory cache shared by all invocations ([cache] dir): target label -> cache key -> the
+     stored outputs.  The key (mustShortTargetHash) covers what the record covers: the rule and its
+     inputs, i.e. H t ins.  None = no cache configured. *)
+  Definition cache := str -> key -> option val.
+  Definition empty_cache : cache := fun _ _ => None.
+  Definition cache_get (oc : option cache) (l : str) (k : key) : option val :=
+    match oc with Some c => c l k | None => None end.
+  Definition cache_put (oc : option cache) (l : str) (k : key) (v : val) : option cache :=
+    match oc with
+    | Some c => Some (fun l' k' => if str_eqb l' l && key_eqb k' k then Some v else c l' k')
+    | None => None
+    end.
+  (* filegroups return from buildTarget before the cache is looked at (build_step.go:261) *)
+  Definition cacheable (t : target) : bool := match t_kind t with KFilegroup => false | _ => true end.
+
+  Record state := mkSt { st_store : store; st_n : nat; st_inv : nat -> inv; st_cache : option cache }.
 
   Definition holds (iv : inv) (l : str) : bool := existsb (fun tb => has_label l (fst tb)) (i_cur iv).
   Definition locked (st : state) (l : str) : bool :=
     existsb (fun j => holds (st_inv st j) l) (seq 0 (st_n st)).
 
-  Definition set_both (st : state) (s : store) (i : nat) (iv : inv) : state :=
-    mkSt s (st_n st) (fun j => if Nat.eqb j i then iv else st_inv st j).
+  Definition set_all (st : state) (s : store) (oc : option cache) (i : nat) (iv : inv) : state :=
+    mkSt s (st_n st) (fun j => if Nat.eqb j i then iv else st_inv st j) oc.
+  Definition set_both (st : state) (s : store) (i : nat) (iv : inv) : state := set_all st s (st_cache st) i iv.
   Definition set_inv (st : state) (i : nat) (iv : inv) : state := set_both st (st_store st) i iv.
 
   Definition drop (l : str) (ts : list target) : list target :=
@@ -168,13 +184,23 @@ Section LTS.
             Some (set_both st (upd s (t_label t) None) i
                            (mkI (i_todo iv) (dropc l (i_cur iv)) (i_done iv) (t_label t :: i_failed iv) (i_ran iv)))
         | Some ins =>
-            match act t ins with
-            | None =>
-                Some (set_both st (upd s (t_label t) None) i
-                               (mkI (i_todo iv) (dropc l (i_cur iv)) (i_done iv) (t_label t :: i_failed iv) (t_label t :: i_ran iv)))
+            match (if cacheable t then cache_get (st_cache st) (t_label t) (H t ins) else None) with
             | Some v =>
+                (* retrieveArtifacts (build_step.go:310): the outputs come out of the cache, the record is
+                   written, the command does NOT run *)
                 Some (set_both st (upd s (t_label t) (Some (H t ins, v))) i
-                               (mkI (i_todo iv) (dropc l (i_cur iv)) (t_label t :: i_done iv) (i_failed iv) (t_label t :: i_ran iv)))
+                               (mkI (i_todo iv) (dropc l (i_cur iv)) (t_label t :: i_done iv) (i_failed iv) (i_ran iv)))
+            | None =>
+                match act t ins with
+                | None =>
+                    Some (set_both st (upd s (t_label t) None) i
+                                   (mkI (i_todo iv) (dropc l (i_cur iv)) (i_done iv) (t_label t :: i_failed iv) (t_label t :: i_ran iv)))
+                | Some v =>
+                    (* build, moveOutputs, record, then storeInCache (build_step.go:406), all under the lock *)
+                    Some (set_all st (upd s (t_label t) (Some (H t ins, v)))
+                                  (if cacheable t then cache_put (st_cache st) (t_label t) (H t ins) v else st_cache st) i
+                                  (mkI (i_todo iv) (dropc l (i_cur iv)) (t_label t :: i_done iv) (i_failed iv) (t_label t :: i_ran iv)))
+                end
             end
         end
     end.
@@ -192,8 +218,9 @@ Section LTS.
   Definition run (sched : list ev) (st : state) : state := fold_left apply sched st.
 
   Definition empty_inv : inv := mkI [] [] [] [] [].
-  Definition init (s0 : store) (todos : list (list target)) : state :=
-    mkSt s0 (length todos) (fun i => mkI (nth i todos []) [] [] [] []).
+  Definition init_c (s0 : store) (oc : option cache) (todos : list (list target)) : state :=
+    mkSt s0 (length todos) (fun i => mkI (nth i todos []) [] [] [] []) oc.
+  Definition init (s0 : store) (todos : list (list target)) : state := init_c s0 None todos.   (* no cache configured *)
   Definition empty_store : store := fun _ => None.
 
   (* every process has exited / exited with status 0 *)
@@ -260,6 +287,15 @@ Definition trusted (key : Type) (H : target -> list val -> key) (act : target ->
                    (r : list target) (s : store key) : Prop :=
   forall t k v, In t r -> s (t_label t) = Some (k, v) -> forall ins, H t ins = k -> act t ins = Some v.
 
+(* the same for the shared directory cache: an entry found under (label, key) was stored by a build of
+   that target from the inputs the key stands for (the empty cache and "no cache" in particular) *)
+Definition cache_trusted (key : Type) (H : target -> list val -> key) (act : target -> list val -> option val)
+                         (r : list target) (oc : option (cache key)) : Prop :=
+  match oc with
+  | None => True
+  | Some c => forall t k v, In t r -> c (t_label t) k = Some v -> forall ins, H t ins = k -> act t ins = Some v
+  end.
+
 (* every invocation works on targets of the repository, and the clean build of each of them succeeds *)
 Definition requests_ok (act : target -> list val -> option val) (r : list target) (todos : list (list target)) : Prop :=
   forall ts t, In ts todos -> In t ts -> In t r /\ cleanv act r (t_label t) <> None.
@@ -306,14 +342,20 @@ Definition cH (t : target) (ins : list val) : ckey := ins.
 Definition cstate := state ckey.
 Definition cdrive := drive ckey ckey_eqb cH act_cmd true.
 Definition cinit := init ckey.
+Definition cinit_c := init_c ckey.
 
 (* ------------------------------------------------------------------------------------------ *)
 (* correspondence cases: one repository, an optional earlier build of `warm`, then the concurrent
-   invocations; with what the real plz processes did *)
+   invocations; with what the real plz processes did.  `cache` = a directory cache is configured (shared
+   by the first build and all concurrent invocations, empty at the start); `wipe` = plz-out is removed
+   between the first build and the concurrent invocations (the cache is kept), so that with a cache
+   everything the first build produced is RETRIEVED by whoever takes the target's lock first, and its
+   command does not run again; without a cache it runs a second time. *)
 
 Inductive case :=
 | Case (r : list target)
        (warm : list str)                                  (* built alone first ([] = nothing) *)
+       (cache wipe : bool)
        (reqs : list (list str))                           (* one entry per concurrent invocation *)
        (choices : list N)                                 (* drives the model's scheduler *)
        (ob_ok : list bool)                                (* exit status 0, per invocation *)
@@ -344,10 +386,11 @@ Definition oks (st : cstate) : list bool := map (fun i => inv_ok (st_inv ckey st
 
 Definition check (c : case) : bool :=
   match c with
-  | Case r warm reqs choices ob_ok ob_outs ob_runs =>
+  | Case r warm cache wipe reqs choices ob_ok ob_outs ob_runs =>
       let fuel := 4 * (S (length r)) * (S (length reqs)) in
-      let w := cdrive [] fuel (cinit (empty_store ckey) (match warm with [] => [] | _ => [plan r warm] end)) in
-      let start := cinit (st_store ckey w) (map (plan r) reqs) in
+      let oc := if cache then Some (empty_cache ckey) else None in
+      let w := cdrive [] fuel (cinit_c (empty_store ckey) oc (match warm with [] => [] | _ => [plan r warm] end)) in
+      let start := cinit_c (if wipe then empty_store ckey else st_store ckey w) (st_cache ckey w) (map (plan r) reqs) in
       let a := cdrive choices fuel start in         (* the schedule chosen by the case *)
       let b := cdrive [] fuel start in              (* first enabled event every time *)
       let good (st : cstate) :=
